@@ -77,6 +77,8 @@ class ForwardAnalysis(Generic[T], Analysis[T], ABC):
             if not self.eq(val_after, vals_after[bb]):
                 vals_after[bb] = val_after
                 queue.update(bb.successors)
+                if self.include_unreachable():
+                    queue.update(bb.dummy_successors)
         return vals_before
 
 
@@ -108,6 +110,8 @@ class BackwardAnalysis(Generic[T], Analysis[T], ABC):
             if not self.eq(vals_before[bb], val_before):
                 vals_before[bb] = val_before
                 queue.update(bb.predecessors)
+                if self.include_unreachable():
+                    queue.update(bb.dummy_predecessors)
         return vals_before
 
 
@@ -217,7 +221,7 @@ class AssignmentAnalysis(Generic[VId], ForwardAnalysis[AssignmentDomain[VId]]):
         # We always include the variables that are definitely assigned before the entry,
         # even if the join is empty
         if len(ts) == 0:
-            return self.ass_before_entry, self.ass_before_entry
+            return self.ass_before_entry, self.maybe_ass_before_entry
 
         def_ass = set.intersection(*(def_ass for def_ass, _ in ts))
         maybe_ass = set.union(*(maybe_ass for _, maybe_ass in ts))
